@@ -173,6 +173,23 @@ class _E1(ast.NodeTransformer):
             n.attr = NP_ALIASES[n.attr]
         return n
 
+    def visit_ListComp(self, n):
+        self.generic_visit(n)
+        # [E(v) for v in (a, b, c)]  ->  [E(a), E(b), E(c)]      (one generator over a display of names / literals, no condition)
+        if len(n.generators) == 1 and not n.generators[0].ifs and not n.generators[0].is_async and isinstance(n.generators[0].iter, (ast.Tuple, ast.List)) \
+                and 1 <= len(n.generators[0].iter.elts) <= 8 and isinstance(n.generators[0].target, ast.Name) \
+                and all(isinstance(e, (ast.Name, ast.Constant)) for e in n.generators[0].iter.elts):
+            v = n.generators[0].target.id
+            if not any(isinstance(x, (ast.Lambda, ast.ListComp, ast.GeneratorExp, ast.SetComp, ast.DictComp)) for x in ast.walk(n.elt)):
+                out = []
+                for e in n.generators[0].iter.elts:
+                    class S(ast.NodeTransformer):
+                        def visit_Name(self, m, e=e):
+                            return clone(e) if m.id == v and isinstance(m.ctx, ast.Load) else m
+                    out.append(S().visit(clone(n.elt)))
+                return ast.copy_location(ast.List(elts=out, ctx=ast.Load()), n)
+        return n
+
     def visit_IfExp(self, n):
         self.generic_visit(n)
         # a if not c else b  ->  b if c else a      (negative tests: not, not in, is not, !=)
@@ -454,14 +471,18 @@ def _stmt_pass(node):
                 blk_changed = True
                 i += 1
                 continue
-            if isinstance(st, ast.Assign) and len(st.targets) == 1 and isinstance(st.targets[0], ast.Tuple) and isinstance(st.value, ast.Tuple) \
+            if isinstance(st, ast.Assign) and len(st.targets) == 1 and isinstance(st.targets[0], (ast.Tuple, ast.List)) and isinstance(st.value, (ast.Tuple, ast.List)) \
                     and len(st.targets[0].elts) == len(st.value.elts) and all(isinstance(e, ast.Name) for e in st.targets[0].elts) \
-                    and not (_names(st.value) & {e.id for e in st.targets[0].elts}):
-                for t, v in zip(st.targets[0].elts, st.value.elts):
-                    new.append(ast.Assign(targets=[t], value=v, lineno=st.lineno, col_offset=st.col_offset))
-                blk_changed = True
-                i += 1
-                continue
+                    and not any(isinstance(v, ast.Starred) for v in st.value.elts):
+                tg = [e.id for e in st.targets[0].elts]
+                # sequential assignment is the same as the parallel one when no value reads a target that was assigned before it
+                if len(set(tg)) == len(tg) and all(not (_names(v) & set(tg[:k])) for k, v in enumerate(st.value.elts)) \
+                        and all(_pure_expr(v) for v in st.value.elts[1:]):
+                    for t, v in zip(st.targets[0].elts, st.value.elts):
+                        new.append(ast.Assign(targets=[t], value=v, lineno=st.lineno, col_offset=st.col_offset))
+                    blk_changed = True
+                    i += 1
+                    continue
             new.append(st)
             i += 1
         if blk_changed:
@@ -689,6 +710,10 @@ def _const_prop(fn, consts):
     return True
 
 
+def _int_const(e):
+    return isinstance(e, ast.Constant) and type(e.value) is int
+
+
 class _FoldConst(ast.NodeTransformer):
     """2**14 -> 16384, -1*3 -> -3: arithmetic on literals only."""
     def visit_BinOp(self, n):
@@ -699,6 +724,17 @@ class _FoldConst(ast.NodeTransformer):
             k = try_fold(n)
             if isinstance(k, (int, float)) and not isinstance(k, bool) and abs(k) < 2 ** 80:
                 return ast.copy_location(ast.Constant(value=k), n)
+        # integer offsets: (e + 1) + 1 -> e + 2 ; e - 0 -> e ; e + 0 -> e      (integer literals only)
+        if isinstance(n.op, (ast.Add, ast.Sub)) and _int_const(n.right):
+            c = n.right.value if isinstance(n.op, ast.Add) else -n.right.value
+            inner = n.left
+            if isinstance(inner, ast.BinOp) and isinstance(inner.op, (ast.Add, ast.Sub)) and _int_const(inner.right):
+                c += inner.right.value if isinstance(inner.op, ast.Add) else -inner.right.value
+                inner = inner.left
+            if inner is not n.left or c == 0:
+                if c == 0:
+                    return inner
+                return ast.copy_location(ast.BinOp(left=inner, op=ast.Add() if c > 0 else ast.Sub(), right=ast.Constant(value=abs(c))), n)
         return n
 
     def visit_UnaryOp(self, n):
@@ -731,8 +767,19 @@ def _copy_prop(fn):
                     a, b = st.targets[0].id, st.value.id
                     if a == b or a in params or stores.get(a) != 1:
                         continue
-                    # the copy must dominate its uses: only top-level statements of the function body are considered
+                    # the copy must dominate its uses: top-level statements of the function body, or a nested block that holds every read of a
                     if owner is not fn:
+                        idx = next(k for k, x in enumerate(body) if x is st)
+                        inside = sum(1 for r in body[idx + 1:] for x in ast.walk(r) if isinstance(x, ast.Name) and x.id == a and isinstance(x.ctx, ast.Load))
+                        total = sum(1 for x in ast.walk(fn) if isinstance(x, ast.Name) and x.id == a and isinstance(x.ctx, ast.Load))
+                        if inside != total or stores.get(b) != 1 or \
+                                any(isinstance(x, ast.Name) and x.id == b and isinstance(x.ctx, (ast.Store, ast.Del)) for r in body[idx + 1:] for x in ast.walk(r)):
+                            continue
+                        for x in ast.walk(fn):
+                            if isinstance(x, ast.Name) and x.id == a and isinstance(x.ctx, ast.Load):
+                                x.id = b
+                        body.remove(st)
+                        changed = True
                         continue
                     if not ((b in params and stores.get(b, 0) == 0) or stores.get(b) == 1):
                         # b is bound several times: fine when none of those bindings comes after the copy
@@ -771,6 +818,35 @@ def _tail_returns_of(body):
     if isinstance(last, (ast.With, ast.AsyncWith)):
         return _tail_returns_of(last.body)
     return []
+
+
+def _nest_guards(g):
+    """A copy of helper g in which every guard `if c: ...; return X` followed by more statements reads `if c: ...; return X else: <rest>`,
+    so that all its returns are in tail position (same behaviour, the shape the inliner understands)."""
+    c = clone(g)
+
+    def ends(body):
+        return bool(body) and isinstance(body[-1], (ast.Return, ast.Raise))
+
+    def nest(body):
+        for i, st in enumerate(body):
+            if isinstance(st, ast.If):
+                st.body = nest(st.body)
+                st.orelse = nest(st.orelse) if st.orelse else []
+                if i + 1 < len(body) and not st.orelse and ends(st.body):
+                    st.orelse = nest(body[i + 1:])
+                    return body[:i + 1]
+                if i + 1 < len(body) and st.orelse and ends(st.orelse) and not ends(st.body):
+                    st.body = st.body + nest(body[i + 1:])
+                    return body[:i + 1]
+            elif isinstance(st, (ast.With, ast.AsyncWith)):
+                st.body = nest(st.body)
+        return body
+    c.body = nest(list(c.body))
+    for k in ('_key', '_bound_self'):
+        if hasattr(g, k):
+            setattr(c, k, getattr(g, k))
+    return c
 
 
 def inline_new_helpers(fn, resolve, is_new, depth=2):
@@ -906,6 +982,119 @@ def inline_new_helpers(fn, resolve, is_new, depth=2):
                 tail = []
         return out + body + tail
 
+    def fuse_generator(loop, before):
+        """for T in gen(args): BODY   with gen a new generator helper whose only yields are statements `yield E`:
+        the helper's body with every `yield E` replaced by `T = E; BODY` (BODY without break / continue / return)."""
+        call = loop.iter
+        # *name with name bound just before to a tuple display: spell the elements out
+        if any(isinstance(a, ast.Starred) for a in call.args):
+            args = []
+            for a in call.args:
+                if isinstance(a, ast.Starred) and isinstance(a.value, ast.Name):
+                    d_ = next((b for b in reversed(before) if isinstance(b, ast.Assign) and len(b.targets) == 1 and isinstance(b.targets[0], ast.Name)
+                               and b.targets[0].id == a.value.id), None)
+                    if d_ is None or not isinstance(d_.value, ast.Tuple) or any(not isinstance(e, (ast.Name, ast.Constant)) for e in d_.value.elts):
+                        return None
+                    args.extend(clone(e) for e in d_.value.elts)
+                elif isinstance(a, ast.Starred):
+                    return None
+                else:
+                    args.append(a)
+            call = ast.copy_location(ast.Call(func=call.func, args=args, keywords=call.keywords), call)
+        g = resolve(call)
+        if g is None or not is_new(g):
+            return None
+        a = g.args
+        if a.vararg or a.kwarg or a.kwonlyargs or a.posonlyargs or g.decorator_list:
+            return None
+        yields = [n for n in ast.walk(g) if isinstance(n, (ast.Yield, ast.YieldFrom))]
+        if not yields or any(isinstance(n, ast.YieldFrom) for n in yields):
+            return None
+        ystmts = [n for n in ast.walk(g) if isinstance(n, ast.Expr) and isinstance(n.value, ast.Yield) and n.value.value is not None]
+        if len(ystmts) != len(yields):
+            return None
+        if any(isinstance(n, ast.Return) for n in ast.walk(g)) or any(n is not g and isinstance(n, SCOPES + (ast.Global, ast.Nonlocal)) for n in ast.walk(g)):
+            return None
+
+        def leaves(body):
+            for x in body:
+                if isinstance(x, (ast.Break, ast.Continue)):
+                    return True
+                if isinstance(x, (ast.For, ast.While, ast.AsyncFor)):
+                    continue
+                for fld in ('body', 'orelse', 'finalbody'):
+                    if leaves(getattr(x, fld, []) or []):
+                        return True
+                for h in getattr(x, 'handlers', []) or []:
+                    if leaves(h.body):
+                        return True
+            return False
+        if leaves(loop.body) or any(isinstance(n, (ast.Return, ast.Yield, ast.YieldFrom)) for b in loop.body for n in ast.walk(b)):
+            return None
+        counter[0] += 1
+        tag = '_g%d_' % counter[0]
+        params = [x.arg for x in a.args]
+        pos_args = list(call.args)
+        if getattr(g, '_bound_self', None) is not None:
+            pos_args = [g._bound_self] + pos_args
+        if any(k.arg is None for k in call.keywords) or len(pos_args) > len(params):
+            return None
+        binding = dict(zip(params, pos_args))
+        for k in call.keywords:
+            if k.arg not in params or k.arg in binding:
+                return None
+            binding[k.arg] = k.value
+        defaults = dict(zip(params[len(params) - len(a.defaults):], a.defaults))
+        for p_ in params:
+            if p_ not in binding:
+                if p_ not in defaults:
+                    return None
+                binding[p_] = defaults[p_]
+        body = [clone(st_) for st_ in g.body]
+        if body and isinstance(body[0], ast.Expr) and isinstance(body[0].value, ast.Constant) and isinstance(body[0].value.value, str):
+            body = body[1:]
+        locs = set(params) | {n.id for st_ in body for n in ast.walk(st_) if isinstance(n, ast.Name) and isinstance(n.ctx, (ast.Store, ast.Del))}
+        used_outside = {n.id for b in loop.body for n in ast.walk(b) if isinstance(n, ast.Name)} | {n.id for n in ast.walk(loop.target) if isinstance(n, ast.Name)}
+        for st_ in body:
+            for n in ast.walk(st_):
+                if isinstance(n, ast.Name) and n.id in locs:
+                    n.id = tag + n.id
+        rebound = {n.id for st_ in body for n in ast.walk(st_) if isinstance(n, ast.Name) and isinstance(n.ctx, (ast.Store, ast.Del))}
+        pre = []
+        direct = {}
+        for p_ in params:
+            arg = binding[p_]
+            plain = all(isinstance(x, (ast.Name, ast.Attribute, ast.Subscript, ast.Constant, ast.expr_context, ast.Tuple, ast.Slice, ast.UnaryOp, ast.USub))
+                        for x in ast.walk(arg))
+            if plain and (tag + p_) not in rebound:
+                direct[tag + p_] = arg
+            else:
+                pre.append(ast.Assign(targets=[ast.Name(id=tag + p_, ctx=ast.Store())], value=clone(arg)))
+        if direct:
+            class D(ast.NodeTransformer):
+                def visit_Name(self, n):
+                    if n.id in direct and isinstance(n.ctx, ast.Load):
+                        return ast.copy_location(clone(direct[n.id]), n)
+                    return n
+            body = [D().visit(st_) for st_ in body]
+
+        def put(stmts_):
+            res = []
+            for x in stmts_:
+                if isinstance(x, ast.Expr) and isinstance(x.value, ast.Yield):
+                    res.append(ast.Assign(targets=[clone(loop.target)], value=x.value.value))
+                    res.extend(clone(b) for b in loop.body)
+                    continue
+                for fld in ('body', 'orelse', 'finalbody'):
+                    v = getattr(x, fld, None)
+                    if isinstance(v, list) and v and isinstance(v[0], ast.stmt):
+                        setattr(x, fld, put(v))
+                for h in getattr(x, 'handlers', []) or []:
+                    h.body = put(h.body)
+                res.append(x)
+            return res
+        return pre + put(body)
+
     def process(stmts, d):
         out = []
         changed = False
@@ -919,6 +1108,16 @@ def inline_new_helpers(fn, resolve, is_new, depth=2):
             for h in getattr(st, 'handlers', []) or []:
                 h.body, ch = process(h.body, d)
                 changed |= ch
+            if isinstance(st, ast.For) and isinstance(st.iter, ast.Call) and d > 0 and not st.orelse:
+                fused = fuse_generator(st, out)
+                if fused is not None:
+                    rep2, _ = process(fused, d - 1)
+                    for r_ in rep2:
+                        ast.copy_location(r_, st)
+                        ast.fix_missing_locations(r_)
+                    out.extend(rep2)
+                    changed = True
+                    continue
             call, how, target = None, None, None
             if isinstance(st, ast.Assign) and isinstance(st.value, ast.Call):
                 call, how, target = st.value, 'assign', st.targets
@@ -931,6 +1130,8 @@ def inline_new_helpers(fn, resolve, is_new, depth=2):
             rep = None
             if call is not None and d > 0:
                 g = resolve(call)
+                if g is not None and is_new(g) and not inlinable(g):
+                    g = _nest_guards(g)
                 if g is not None and is_new(g) and inlinable(g):
                     rep = expand(call, g, how, target)
             if rep is not None:
@@ -1694,6 +1895,63 @@ def _known_condition(fn):
     return changed[0]
 
 
+def _same_terminal(fn):
+    """if c: T            ->   T            (T one terminal statement - raise / return / continue / break - identical in both places, c pure)
+       T
+    if a: T              ->   if a or b: T     (consecutive guards with the same terminal statement; b is evaluated only when a is false,
+    if b: T                                     as before)"""
+    changed = False
+
+    def terminal(body):
+        return len(body) == 1 and isinstance(body[0], (ast.Raise, ast.Return, ast.Continue, ast.Break))
+    for owner in ast.walk(fn):
+        for fld in ('body', 'orelse', 'finalbody'):
+            body = getattr(owner, fld, None)
+            if not (isinstance(body, list) and len(body) >= 2 and isinstance(body[0], ast.stmt)) or isinstance(owner, ast.Lambda):
+                continue
+            i = 0
+            while i + 1 < len(body):
+                a, b = body[i], body[i + 1]
+                if isinstance(a, ast.If) and not a.orelse and terminal(a.body) and _pure_expr(a.test):
+                    if ast.dump(a.body[0]) == ast.dump(b) and isinstance(b, (ast.Raise, ast.Return, ast.Continue, ast.Break)):
+                        del body[i]
+                        changed = True
+                        continue
+                    if isinstance(b, ast.If) and not b.orelse and terminal(b.body) and ast.dump(a.body[0]) == ast.dump(b.body[0]):
+                        a.test = ast.copy_location(ast.BoolOp(op=ast.Or(), values=[a.test, b.test]), a.test)
+                        del body[i + 1]
+                        changed = True
+                        continue
+                i += 1
+    return changed
+
+
+def _self_default(fn):
+    """x = A if c else x   ->   if c: x = A        (and  x = x if c else A  ->  if not c: x = A)"""
+    changed = False
+    for owner in ast.walk(fn):
+        for fld in ('body', 'orelse', 'finalbody'):
+            body = getattr(owner, fld, None)
+            if not (isinstance(body, list) and body and isinstance(body[0], ast.stmt)) or isinstance(owner, ast.Lambda):
+                continue
+            for i, st in enumerate(body):
+                if isinstance(st, ast.Assign) and len(st.targets) == 1 and isinstance(st.targets[0], ast.Name) and isinstance(st.value, ast.IfExp):
+                    x = st.targets[0].id
+                    ie = st.value
+                    if isinstance(ie.orelse, ast.Name) and ie.orelse.id == x:
+                        test, val = ie.test, ie.body
+                    elif isinstance(ie.body, ast.Name) and ie.body.id == x:
+                        test, val = _negate(ie.test), ie.orelse
+                    else:
+                        continue
+                    new = ast.If(test=test, body=[ast.Assign(targets=[st.targets[0]], value=val)], orelse=[])
+                    ast.copy_location(new, st)
+                    ast.fix_missing_locations(new)
+                    body[i] = new
+                    changed = True
+    return changed
+
+
 def _split_if(fn):
     """if c: a = A; b = B  else: b = B2      ->     if c: a = A;   if c: b = B else: b = B2
     Every statement of both branches is a plain assignment to one name or self-attribute, c is pure and reads nothing the branches store,
@@ -2200,6 +2458,13 @@ def normal_form(fn, callee_info=None, consts=None):
     """A normalised private copy of the function definition node fn.  consts: {module-level NAME: python constant}."""
     c = clone(fn)
     c.decorator_list = list(c.decorator_list)
+    from .normalize import unroll_table_loops
+    try:
+        c2, nun = unroll_table_loops(c, None, max_rows=12)
+        if nun:
+            c = c2
+    except Exception:
+        pass
     _strip_signature(c)
     _dead_constant_stores(c)
     _const_prop(c, consts)
@@ -2222,10 +2487,12 @@ def normal_form(fn, callee_info=None, consts=None):
         _tail_return_dedup(c)
         _return_ifexp(c)
         _list_accumulation(c)
+        _same_terminal(c)
         _known_condition(c)
         _split_if(c)
         _default_override(c)
         _ifexp_assign(c)
+        _self_default(c)
         _bool_ifexp(c)
         _guard_continue(c)
         _sink_increment(c)
@@ -2239,6 +2506,12 @@ def normal_form(fn, callee_info=None, consts=None):
         _sink_definitions(c)
         _forward_subst(c, getattr(consts, 'exprs', None))
         c = _FoldConst().visit(c)
+        try:
+            c2, nun = unroll_table_loops(c, None, max_rows=12)
+            if nun:
+                c = c2
+        except Exception:
+            pass
         if ast.dump(c) == before:
             break
     _alpha(c)
